@@ -4,8 +4,6 @@ package cl
 
 import (
 	"github.com/ohler55/slip"
-	"golang.org/x/text/cases"
-	"golang.org/x/text/language"
 )
 
 func init() {
@@ -15,7 +13,7 @@ func init() {
 				stringModify: stringModify{
 					Function: slip.Function{Name: "nstring-capitalize", Args: args},
 					modify: func(str string) string {
-						return cases.Title(language.Und).String(str)
+						return capitalize(str)
 					},
 				},
 			}
